@@ -1,24 +1,27 @@
 PROP = dict(
     level="exploration",
     design_ref="DESIGN.md §3 C08",
-    technique="rapid-generated notice histories (adds, clock ticks, polls, concurrent waiters, reloads) run on the real State against a delivery-event log model with per-client cursors",
+    technique="rapid-generated notice histories (adds, clock ticks and wall-clock steps, polls, concurrent waiters, reloads) run on the real State against a delivery-event log model with per-client cursors",
     level_text="Generated histories of AddNotice calls without explicit time (users, types, keys, repeat-after windows, data; many at one mocked clock reading, "
-               "clock steps of 1 ns to hours and small steps back), polls by 1-4 simulated /v2/notices clients with fixed user/type/key filters that remember "
-               "after = max last-repeated seen in the JSON they received, WaitNotices callers in real goroutines with adds happening while they wait, and "
-               "serialise/read-back of the state. Each result list is compared with an implementation-independent model: an ordered log of delivery events "
-               "(first occurrence or unsuppressed re-occurrence) and a per-client log position; a result must be exactly the matching, viewable events since the "
-               "client's previous result, one per notice, in log order, with the notice's current occurrences/last-data/times. Waiters must return at once when "
-               "matching events are pending, must be woken by a matching delivery (10 s watchdog, confirmed by 3 isolated re-runs), and must return nothing but "
-               "the context error when only non-matching or suppressed occurrences happened.",
+               "time passing in steps of 1 ns to hours, the wall clock being set back while the monotonic clock goes on), polls by 1-4 simulated /v2/notices "
+               "clients with fixed user/type/key filters that remember after = max last-repeated seen in the JSON they received, WaitNotices callers in real "
+               "goroutines with adds happening while they wait, and serialise/read-back of the state. Each result list is compared with an "
+               "implementation-independent model: an ordered log of delivery events (first occurrence or unsuppressed re-occurrence) and a per-client log "
+               "position; a result must be exactly the matching, viewable events since the client's previous result, one per notice, in log order, with the "
+               "notice's current occurrences/last-data/times. Waiters must return at once when matching events are pending, must be woken by a matching "
+               "delivery (10 s watchdog, confirmed by 3 isolated re-runs), and must return nothing but the context error when only non-matching or "
+               "suppressed occurrences happened.",
     level_note="Sampled, not exhaustive. Concurrency is explored at the granularity the State lock allows: a waiter is known to be parked on the condition "
                "variable before the next add takes the lock; which of several woken waiters runs first is left to the Go scheduler (results do not depend on it). "
-               "Trusts state.MockTime as the clock of AddNotice; expiry (real clock) is kept out of reach by placing all times within -3 days..+2 weeks of now (expiry is C09).",
-    rule="rapid generates (clients with filters, op list of add/bad-add/tick/poll/wait{waiters, adds and ticks while waiting}/reload) of <=40 (quick) / <=150 (thorough) ops; "
+               "Trusts state.MockTime as the clock of AddNotice (fed with wall+monotonic readings like time.Now() gives); expiry (real clock) is kept out of reach "
+               "by placing all times within -3 days..+2 weeks of now (expiry is C09). Histories that run into known finding F-C08-1 end at that point.",
+    rule="rapid generates (clients with filters, op list of add/bad-add/tick/step/poll/wait{waiters, adds, ticks and steps while waiting}/reload) of <=40 (quick) / <=150 (thorough) ops; "
          "non-trivial = the history has >=2 delivery events at one clock reading, or a repeat suppressed by repeat-after, or a user-specific notice "
          "pending for a polling client of another user; distinct by hash of the case",
-    assumptions=["occurrence time of an add without explicit Time = mocked clock reading, or 1 ns after the previous occurrence time if the clock did not advance past it",
+    assumptions=["occurrence time of an add without explicit Time = mocked wall clock reading, or 1 ns after the previous occurrence time if the wall clock is not past it",
                  "an occurrence exactly repeat-after later than last-repeated may or may not count as a repeat (doc comments disagree with each other at this single instant); the model follows the state for that one decision",
                  "nothing expires during a history (all times within 7 days of the real now)",
-                 "daemon/api_notices.go builds NoticeFilter{UserID, Types, Keys, After} exactly as the simulated clients do (uid clients: own uid; root: uid 0, a chosen uid, or all users)"],
+                 "daemon/api_notices.go builds NoticeFilter{UserID, Types, Keys, After} exactly as the simulated clients do (uid clients: own uid; root: uid 0, a chosen uid, or all users)",
+                 "mocked time.Now() values are built through the memory layout of time.Time (wall, ext, loc), verified by a self test at start-up"],
     engines=[gt("history", "overlord/state", "TestVerifC08", dict(checks=3000, shards=2), dict(checks=30000, shards=16))],
 )
